@@ -258,6 +258,15 @@ theorem src_DHTFindNode_closest_is_min (params : Src.kademlia.DHTFindNodeParamsT
   · exact .inl ⟨h1, h2⟩
   · exact .inr ⟨h1, h2⟩
 
+/-- ⊢ regenerated `DHTJoin`, truthful: the number it returns is the number of contacted nodes — pairwise different
+    ids — for which the caller's `AddPeer` answered true, for every network and every (total) `AddPeer`. -/
+theorem src_DHTJoin_counts (params : Src.kademlia.DHTJoinParamsT)
+    (hAsk : ∀ n r, ∃ a, params.Ask n r = .ok a) (hAdd : ∀ i f, ∃ b, params.AddPeer i f = .ok b)
+    (added : Int) (h : Src.kademlia.DHTJoin params = .ok added) :
+    ∃ contacted : List Src.kademlia.NodeInfoT, (contacted.map (·.ID)).Nodup ∧
+      added = ((contacted.filter (Src.joinAdds params)).length : Int) :=
+  Src.DHTJoin_good params hAsk hAdd added h
+
 -- non-vacuity: a run of the regenerated DHTGet that returns a validated value (A answers [7], closer to key 0 than B)
 example :
     let mk : UInt8 → Src.kademlia.NodeInfoT := fun b => { ID := b :: List.replicate 31 0, Info := [] }
